@@ -58,6 +58,8 @@ type EP struct {
 	// FixedRandom: WithHelloRandomBytesGenerator returning the same 28 bytes every time (the option is
 	// documented for clients; a shared option, so it can be given to a server too)
 	FixedRandom bool `json:"fixedrandom,omitempty"`
+	// MaxFirst: WithMaxVersion is given before WithMinVersion (options are order-independent by contract)
+	MaxFirst bool `json:"maxfirst,omitempty"`
 }
 
 // MemStore is a session store that records every call. Like the obvious application store (a map of
@@ -313,10 +315,13 @@ func (ep *EP) shared(env *Env, role string) ([]dtls.Option, error) {
 		env.Log = &LogSink{}
 	}
 	o = append(o, dtls.WithLoggerFactory(env.Log))
+	if v, ok := ver(ep.MaxVer); ok && ep.MaxFirst {
+		o = append(o, dtls.WithMaxVersion(v))
+	}
 	if v, ok := ver(ep.MinVer); ok {
 		o = append(o, dtls.WithMinVersion(v))
 	}
-	if v, ok := ver(ep.MaxVer); ok {
+	if v, ok := ver(ep.MaxVer); ok && !ep.MaxFirst {
 		o = append(o, dtls.WithMaxVersion(v))
 	}
 	if len(ep.Suites) > 0 {
